@@ -923,7 +923,12 @@ class C18(Prop):
             for sl in range(nslots):
                 cfg = gen.gen_cfg(rng, max_chunk=300, probe=rng.random() < 0.5)
                 cfgs.append(cfg.line)
-                hsub = gen.gen_valid_history(rng, cfg, rng.randint(3, 14), slot=sl, ratio_changes="calm")
+                # a third of the streams carry subnormal-range samples (d: subnormal in f32, e: subnormal in f64): the
+                # arithmetic must not depend on floating-point control state left behind on a thread
+                tiny = rng.choice([None, None, "d%d" % rng.randint(0, 999), "e%d" % rng.randint(0, 999)])
+                hsub = gen.gen_valid_history(rng, cfg, rng.randint(3, 14), slot=sl, ratio_changes="calm", sig=tiny)
+                if tiny:
+                    feats.add("subnormal-signal")
                 feats |= set(hsub.meta["feats"])
                 ops.append(hsub.ops)
             # interleave the slots' ops
@@ -1230,7 +1235,75 @@ class C15(Prop):
                "dist": {"kernels": kinds, "unavailable": sorted(unavailable), "configs": len(cfgs),
                         "model_bit_exact_checks": len([1 for x in mqi if x[1] in ("scalar", "sse")])},
                "samples": samples}
+        # 3. the dispatch: a resampler built by `new()` (make_interpolator picks the kernel for this CPU) against twins
+        #    built around each explicit kernel with the effective parameters; same stream within summation-order rounding
+        hs = histories if histories is not None else self.dispatch_twins(rng, [k for k in kinds if k not in unavailable])
+        sub = Prop.run(self, rng, histories=hs, have_model=have_model)
+        viols += sub["violations"]
+        disag += sub["disagreements"]
+        cov["evaluations"] += sub["coverage"]["evaluations"]
+        cov["traces_validated_against_impl"] += sub["coverage"]["traces_validated_against_impl"]
+        cov["distinct"] |= sub["coverage"]["distinct"]
+        cov["dist"]["dispatch_twin_histories"] = len(hs)
         return {"coverage": cov, "disagreements": disag[:5], "violations": viols[:5], "notes": notes}
+
+    def dispatch_twins(self, rng, kinds):
+        hs = []
+        for i in range(self.n):
+            kind = rng.choice(["sincin", "sincout"])
+            ty = rng.choice(["f64", "f32"])
+            ratio = rng.choice([0.5, 0.8, 0.25, 44100 / 48000, 1.0, 1.5, 2.0, 48000 / 44100,
+                                math.exp(rng.uniform(math.log(1 / 8), math.log(8)))])
+            sl = rng.choice([8, 16, 24, 32, 64, 72, 100, 128])
+            it = rng.randint(0, 3)
+            osf = rng.choice([2, 3, 16, 128])
+            fcut = rng.choice([0.95, 0.9, 0.8])
+            win = rng.randint(0, 5)
+            chunk = rng.choice([17, 64, 100, 256])
+            base = f"{ty} {kind} {hx(ratio)} {hx(1.0)} {it} {sl} {osf} {hx32(fcut)} {win} {chunk} 1"
+            ops = [f"0 new {base} auto"] + [f"{k + 1} new {base} {kd}" for k, kd in enumerate(kinds)]
+            pairs = []
+            sg = "r%d" % rng.randint(0, 999)
+            for _ in range(rng.randint(2, 5)):
+                pairs.append(len(ops))
+                for k in range(len(kinds) + 1):
+                    ops.append(f"{k} proc - n m {sg} dump")
+            hs.append(History(ops, {"cfg": base, "kind": kind, "ty": ty, "feats": ["dispatch", "down" if ratio < 1 else "up"],
+                                    "twin_pairs": pairs, "nslots": len(kinds) + 1, "L": 8 * ((sl + 7) // 8)}))
+        return hs
+
+    def distinct_key(self, h):
+        return (h.meta.get("cfg"),)
+
+    def oracle(self, h):
+        out = []
+        n = h.meta.get("nslots", 0)
+        ty = h.meta.get("ty", "f64")
+        eps = 2.0 ** -23 if ty == "f32" else 2.0 ** -52
+        for k in h.meta.get("twin_pairs", []):
+            obs = h.real[k:k + n]
+            if len(obs) < n or "skip" in obs:
+                break
+            f0 = fields(obs[0])
+            for j in range(1, n):
+                fj = fields(obs[j])
+                if fj["status"] != f0["status"] or fj["g"] != f0["g"]:
+                    out.append(viol("C15", h, k + j, SlotInfo(h.ops[0]), "dispatched-resampler-differs-from-explicit-kernel:counts",
+                                    {"auto": obs[0][:160], "explicit": obs[j][:160]}))
+                    return out
+                if not f0["d"] or not fj["d"]:
+                    continue
+                a, b = proto.decode_dump(f0["d"][0], ty), proto.decode_dump(fj["d"][0], ty)
+                if a is None or b is None or len(a) != len(b):
+                    continue
+                peak = max([1.0] + [abs(x) for x in a])
+                tol = eps * 16 * (h.meta.get("L", 8) + 8) * peak
+                for q, (x, y) in enumerate(zip(a, b)):
+                    if not abs(x - y) <= tol:
+                        out.append(viol("C15", h, k + j, SlotInfo(h.ops[0]), "dispatched-resampler-differs-from-explicit-kernel",
+                                        {"frame": q, "auto": x, "explicit": y, "explicit_slot": h.ops[j], "tolerance": tol}))
+                        return out
+        return out
 
 
 # ------------------------------------------------------------------------------------------ C03 / C04 / C06(stale) shared
@@ -2252,7 +2325,16 @@ class ToneProp(Prop):
             if ncalls > 3000:
                 continue
             ops = [f"0 new {line}"] + [f"0 proc - n m s{hx(f_in)} dump"] * ncalls
-            meta.update({"cfg": line, "kind": kind, "ty": ty, "feats": [WIN_NAMES[meta['win']]]})
+            feats_extra = []
+            if meta["fam"] == "sinc" and rng.random() < 0.5:
+                # "every way of chunking the stream": change the chunk size mid-stream a few times (and feed more calls,
+                # the chunks only get smaller)
+                ops += [f"0 proc - n m s{hx(f_in)} dump"] * min(ncalls, 200)
+                for _ in range(rng.randint(1, 4)):
+                    pos = rng.randint(2, max(3, int(0.5 * len(ops))))
+                    ops.insert(pos, f"0 chunk {rng.randint(max(1, chunk // 4), chunk)}")
+                feats_extra = ["chunk-schedule"]
+            meta.update({"cfg": line, "kind": kind, "ty": ty, "feats": [WIN_NAMES[meta['win']]] + feats_extra})
             hs.append(History(ops, meta))
         return hs
 
